@@ -323,34 +323,34 @@ func wellFormedFor(ba *bitarray.CompactBitArray, n int) bool {
 
 // judge evaluates the statement on (k, keys, decoded multisignature or nil, result).
 func judge(res string, k uint64, ks []*keyT, msg []byte, dec *multisig.Multisignature) string {
-	hasNil := false
-	for _, x := range ks {
-		if x == nil {
-			hasNil = true
+	n := len(ks)
+	var elems []byte
+	if dec != nil && dec.BitArray != nil {
+		elems = dec.BitArray.Elems
+	}
+	var marked []int
+	nilMarked := false
+	if dec != nil {
+		for i := 0; i < n; i++ {
+			if rawBit(elems, i) {
+				marked = append(marked, i)
+				if ks[i] == nil {
+					nilMarked = true
+				}
+			}
 		}
 	}
 	if strings.HasPrefix(res, "panic:") {
-		if res == "panic:nilkey" && hasNil {
-			return "VIOL:verify-panic-nilkey VerifyBytes panicked (" + res + ") with a nil constituent key"
+		if res == "panic:nilkey" && nilMarked {
+			return "VIOL:verify-panic-nilkey VerifyBytes panicked (" + res + ") with a nil constituent key at a marked position"
 		}
 		return "VIOL:verify-panic VerifyBytes panicked (" + res + ")"
 	}
-	n := len(ks)
 	if dec == nil { // undecodable signature bytes: must be rejected
 		if res == "true" {
 			return "VIOL:accepts-invalid undecodable signature bytes accepted"
 		}
 		return "ok"
-	}
-	var elems []byte
-	if dec.BitArray != nil {
-		elems = dec.BitArray.Elems
-	}
-	var marked []int
-	for i := 0; i < n; i++ {
-		if rawBit(elems, i) {
-			marked = append(marked, i)
-		}
 	}
 	allValid := true
 	why := ""
@@ -365,13 +365,13 @@ func judge(res string, k uint64, ks []*keyT, msg []byte, dec *multisig.Multisign
 		}
 	}
 	enough := uint64(len(marked)) >= k
-	if !enough {
-		why = fmt.Sprintf("%d marked < k=%d", len(marked), k)
-	}
 	expected := enough && allValid
 	if res == "true" && !expected {
-		if k >= 1<<63 {
-			return "VIOL:hugek-accept accepted although " + why
+		if allValid && k >= 1<<63 {
+			return fmt.Sprintf("VIOL:hugek-accept accepted although %d marked < k=%d", len(marked), k)
+		}
+		if allValid {
+			why = fmt.Sprintf("%d marked < k=%d", len(marked), k)
 		}
 		return "VIOL:accepts-invalid accepted although " + why
 	}
@@ -798,6 +798,31 @@ func execGas(t []string) (string, string) {
 	}
 	ks := resolveKeys(t[1])
 	var bz []byte
+	want := int64(-1) // independent expectation, only for well-formed shapes with enough signatures
+	if t[0] == "gas" {
+		if ba := parseBits(t[2]); wellFormedFor(ba, len(ks)) {
+			want = 0
+			cnt := 0
+			for i := range ks {
+				if ba != nil && rawBit(ba.Elems, i) {
+					cnt++
+					if ks[i] != nil {
+						switch ks[i].id[0] {
+						case 'e':
+							want += auth.DefaultParams().SigVerifyCostED25519
+						case 's':
+							want += auth.DefaultParams().SigVerifyCostSecp256k1
+						default:
+							want = -1 << 40
+						}
+					}
+				}
+			}
+			if cnt > kit.Atoi(t[3]) || want < 0 {
+				want = -1
+			}
+		}
+	}
 	if t[0] == "gasraw" {
 		bz = kit.MustUnHex(t[2])
 		if _, tok := decodeTok(bz); tok != t[3] {
@@ -835,6 +860,9 @@ func execGas(t []string) (string, string) {
 	}()
 	if strings.HasPrefix(out, "panic:") {
 		return out, "VIOL:gas-" + strings.Replace(out, ":", "-", 1) + " DefaultSigVerificationGasConsumer panicked on multisig signature bytes"
+	}
+	if want >= 0 && out != fmt.Sprintf("gas=%d", want) {
+		return out, fmt.Sprintf("VIOL:gas-amount expected gas=%d for the marked keys", want)
 	}
 	return out, "ok"
 }
